@@ -39,7 +39,7 @@ BUILT = {
             'DESIGN.md 3/C08'),
     'C02': ('model_checking',
             'explicit-state exploration of line histories on the real assembler against a reference two-pass layout model',
-            'Every history over a 29-symbol line alphabet (labels, a zero-valued constant, a macro of sub-byte steps, instructions of three sizes, data, fills, origins, alignments, '
+            'Every history over a 30-symbol line alphabet (labels, a zero-valued constant, a macro of sub-byte steps, an embedded string, instructions of three sizes, data, fills, origins, alignments, '
             'zone switches, muting, an excluded block; forward and backward references) up to depth 3 (thorough 4), and one level '
             'deeper over a core alphabet, under three configurations, is assembled by the real code; the whole image must equal '
             'the reference layout, which fixes every address, every label value (read out by a suffix) and every line size.',
@@ -184,7 +184,7 @@ BUILT = {
     'C15': ('model_checking',
             'schedule exploration of set-iteration order under an import-hook scheduler (deviation-bounded), plus exhaustive CLI environment product',
             'The explorer owns the only internal source of run-to-run variation, set iteration order: every bespokeasm module is loaded '
-            'through an AST rewrite that makes each iteration of a set of hash-randomised elements a choice point; for 13 programs x 2 '
+            'through an AST rewrite that makes each iteration of a set of hash-randomised elements a choice point; for 14 programs x 2 '
             'formats the default schedule (replayed twice) and every schedule with one (thorough two) deviating choice point must give '
             'identical status, image and pretty print. End to end, the same programs x formats run through the real CLI for every '
             'combination of hash seed, working directory, include-directory order, include-directory spelling and environment.',
